@@ -14,8 +14,11 @@ From NV Require Import Mem.Rc Mem.RcProofs Mem.StackBase Gen.StackTables Mem.Sta
 (* every history of value-level operations, from the empty state: no error state (use after free,
    double free, count underflow, clone of a dead block, &mut while shared, unchecked thunk decode of
    a non-thunk), and at the end the count of every live block is exactly the number of live handles
-   to it, a freed block has no live handle, and every handle points to a live block of a tag its
-   static type allows.  [Overflow] (2^56 - 1 simultaneous handles to one block) stops the run. *)
+   to it and is at least 1 (a block no handle points to has been freed: what can remain unreachable
+   from the roots is kept alive by handles inside other unreachable blocks, i.e. cycles — a leak,
+   not a safety issue), a freed block has no live handle, and every handle points to a live block of
+   a tag its static type allows.  [Overflow] (2^56 - 1 simultaneous handles to one block) stops the
+   run. *)
 Theorem C18_rc_protocol_safe : forall ops,
   match run MAX_REF_COUNT ops init with
   | Ok (_, st) => rc_inv st /\ thunk_tag_inv st
